@@ -64,7 +64,9 @@ def run(tier):
     ck.assumptions = [
         "on failure only the error kind is compared (the number of events already delivered before the error is not part of the statement)",
         "json_cursor constructors turn unexpected_eof before the first event into a done cursor (all constructors, by design): treated as equal to unexpected_eof with no events",
-        "ASan+UBSan build: stale chunk pointers kept by the parser would be reported as harness errors (each chunk lives in its own heap block)",
+        "ASan+UBSan build: stale chunk pointers kept by the parser are reported (each chunk lives in its own heap block)",
+        "CSV read_to is exercised on texts without quote characters only: a cursor stepped after read_to over an unterminated quoted field reads "
+        "outside the parser's mode stack (same end-of-input state machine as finding F70, recorded under C05)",
     ]
     ck.finish(lambda sig: replay(sig))
 
